@@ -132,6 +132,7 @@ type refreshEv struct {
 	Expired bool          `json:"expired,omitempty"`
 	Acked   bool          `json:"acked"`
 	Server  bool          `json:"server_driven,omitempty"` // invoked by the library (handler), not placed by the harness
+	InCheck bool          `json:"inside_position_check,omitempty"` // run by the broker wrapper while the periodic position check waited for History
 	GraceLo time.Duration `json:"grace_lo"`
 	GraceHi time.Duration `json:"grace_hi"`
 
@@ -146,6 +147,8 @@ type subPlan struct {
 	AtConnect  bool   `json:"at_connect,omitempty"`  // server-side subscription from ConnectReply.Subscriptions
 	CSR        bool   `json:"client_side_refresh"`   // SubscribeReply.ClientSideRefresh
 	Handler    bool   `json:"sub_refresh_handler"`   // OnSubRefresh set
+	Positioned bool   `json:"positioned,omitempty"`  // EnablePositioning: periodic position checks go to the broker
+	PosExtra   int64  `json:"refresh_inside_position_check_extends_by,omitempty"`
 	Exp        int64  `json:"expire_at"`             // unix
 	SubAt      time.Duration `json:"sub_at"`
 	Ext        []int  `json:"handler_extensions,omitempty"` // server-driven handler: extension (s) per invocation, then Expired
@@ -190,6 +193,8 @@ type cstate struct {
 	subID     uint32
 	srvCalls  int
 	subCalls  int
+	posEv     *refreshEv // pending sub_refresh to run inside the next position check
+	subEstablished atomic.Bool
 }
 
 type tevent struct {
@@ -208,6 +213,9 @@ type cworld struct {
 	sch          *sched
 	conns  []*cstate
 	events []tevent
+	posCheck  bool // positioned-subscription scenarios: broker wrapper + short position check delay
+	chMu      sync.Mutex
+	byChannel map[string]*cstate
 }
 
 func (x *cworld) unixAt(d time.Duration) int64 { return x.base.Add(d).Unix() }
@@ -243,7 +251,73 @@ func parseExpToken(tok string) (int64, bool, bool) {
 	return 0, false, false
 }
 
+// posBroker is the real memory broker; a History call that is the periodic position check
+// of a scenario channel first lets the scenario's pending client sub_refresh run to
+// completion (the broker round trip "takes long enough" for a command to be handled).
+type posBroker struct {
+	*centrifuge.MemoryBroker
+	x *cworld
+}
+
+func (b *posBroker) History(ch string, opts centrifuge.HistoryOptions) ([]*centrifuge.Publication, centrifuge.StreamPosition, error) {
+	b.x.chMu.Lock()
+	st := b.x.byChannel[ch]
+	b.x.chMu.Unlock()
+	if st != nil {
+		st.insidePositionCheck()
+	}
+	return b.MemoryBroker.History(ch, opts)
+}
+
+// insidePositionCheck runs inside the broker's History call. The subscribe command itself
+// asks History for the stream top: only calls made once the subscription is established
+// (no subscribe in flight) are position checks. Never sleeps: the tick holds presenceMu.
+func (st *cstate) insidePositionCheck() {
+	if !st.subEstablished.Load() {
+		return
+	}
+	x := st.x
+	x.c.Count("position_check_history_calls", 1)
+	st.mu.Lock()
+	ev := st.posEv
+	if ev == nil || st.stopped {
+		st.mu.Unlock()
+		return
+	}
+	st.posEv = nil
+	now := x.w.Now()
+	if now > x.absOf(st.Sub.Exp)+x.DS-margin {
+		st.mu.Unlock()
+		x.c.Count("position_check_too_late_for_in_time_refresh", 1)
+		return
+	}
+	ev.At = now
+	ev.NewExp = st.Sub.Exp + st.Sub.PosExtra
+	if u := x.unixAt(now) + st.Sub.PosExtra; u > ev.NewExp {
+		ev.NewExp = u
+	}
+	st.subEvs = append(st.subEvs, ev)
+	st.mu.Unlock()
+	var done atomic.Bool
+	go func() {
+		st.subRefresh(ev)
+		done.Store(true)
+	}()
+	if kit.SpinUntil(done.Load, 5_000_000) {
+		x.c.Count("sub_refresh_run_inside_position_check", 1)
+	} else {
+		x.c.Count("sub_refresh_inside_position_check_not_completed_in_time", 1)
+	}
+}
+
 func (x *cworld) setup(n *centrifuge.Node) {
+	if x.posCheck {
+		mb, err := centrifuge.NewMemoryBroker(n, centrifuge.MemoryBrokerConfig{})
+		if err != nil {
+			panic(err)
+		}
+		n.SetBroker(&posBroker{MemoryBroker: mb, x: x})
+	}
 	n.OnConnecting(func(_ context.Context, e centrifuge.ConnectEvent) (centrifuge.ConnectReply, error) {
 		st := x.stateOf(e.Transport)
 		if st == nil {
@@ -297,7 +371,7 @@ func (x *cworld) setup(n *centrifuge.Node) {
 		}
 		if st.Sub != nil && !st.Sub.ServerSide {
 			cl.OnSubscribe(func(e centrifuge.SubscribeEvent, cb centrifuge.SubscribeCallback) {
-				cb(centrifuge.SubscribeReply{Options: centrifuge.SubscribeOptions{ExpireAt: st.Sub.Exp}, ClientSideRefresh: st.Sub.CSR}, nil)
+				cb(centrifuge.SubscribeReply{Options: centrifuge.SubscribeOptions{ExpireAt: st.Sub.Exp, EnablePositioning: st.Sub.Positioned}, ClientSideRefresh: st.Sub.CSR}, nil)
 			})
 		}
 		if st.Sub != nil && st.Sub.Handler {
@@ -433,6 +507,7 @@ func (st *cstate) subscribe() {
 	}
 	st.subID = st.conn.NextID()
 	st.conn.Do(&protocol.Command{Id: st.subID, Subscribe: &protocol.SubscribeRequest{Channel: st.Sub.Channel}})
+	st.subEstablished.Store(true)
 }
 
 func (st *cstate) clientRefresh(ev *refreshEv) {
@@ -521,6 +596,9 @@ func (x *cworld) genConn(idx int) *cstate {
 		st.Proto = "protobuf"
 	}
 	st.Kind = kit.Pick(r, kinds)
+	if x.posCheck && r.Chance(1, 4) {
+		st.Kind = "sub-client-csr-positioned"
+	}
 	st.CreateAt = ms(r.Range(0, 3000))
 	st.ConnectAt = st.CreateAt + ms(r.Range(1, 400))
 	// ping/pong configuration
@@ -710,6 +788,8 @@ func (x *cworld) genConn(idx int) *cstate {
 		switch st.Kind {
 		case "sub-client-csr":
 			sp.CSR, sp.Handler = true, true
+		case "sub-client-csr-positioned":
+			sp.CSR, sp.Handler, sp.Positioned = true, true, true
 		case "sub-client-ssr":
 			sp.Handler = true
 		case "sub-client-nohandler":
@@ -725,6 +805,16 @@ func (x *cworld) genConn(idx int) *cstate {
 			sp.SubAt = t0
 		}
 		subIn := r.Range(3, 40)
+		if sp.Positioned {
+			// the first presence tick (position check) comes within one interval of the connect
+			subIn = int(x.I/time.Second) + 8 + r.Range(0, 20)
+			// long enough that ending at the ORIGINAL deadline would be too early for the new one
+			sp.PosExtra = int64(x.I/time.Second) + 5 + int64(r.Range(0, 20))
+			st.posEv = &refreshEv{Kind: "sub-refresh", InCheck: true, GraceLo: x.DS, GraceHi: x.DS}
+			x.chMu.Lock()
+			x.byChannel[sp.Channel] = st
+			x.chMu.Unlock()
+		}
 		if st.Prelude {
 			subIn += int((x.absOf(st.Exp0)+x.DC-t0)/time.Second) + 3
 		}
@@ -751,7 +841,11 @@ func (x *cworld) genConn(idx int) *cstate {
 		if sp.CSR {
 			curExp := sp.Exp
 			prev := sp.SubAt
-			for i, n := 0, r.Range(0, 3); i < n; i++ {
+			nGrid := r.Range(0, 3)
+			if sp.Positioned {
+				nGrid = 0 // the one refresh of this scenario runs inside the position check
+			}
+			for i, n := 0, nGrid; i < n; i++ {
 				dl := x.absOf(curExp) + x.DS
 				at, _ := gridAround(r, prev, dl, hiExtra, -1)
 				if at <= prev+ms(5) {
@@ -778,6 +872,9 @@ func (x *cworld) genConn(idx int) *cstate {
 					last = at
 				}
 			}
+		}
+		if sp.Positioned {
+			last = x.absOf(sp.Exp+2*sp.PosExtra) + x.DS
 		}
 		st.Horizon = last + hiExtra + margin + sec(3)
 	}
@@ -1232,6 +1329,12 @@ func (st *cstate) evaluate(end time.Duration) string {
 		if res == "violation" {
 			return res
 		}
+		for _, ev := range st.subEvs {
+			if ev.InCheck && ev.Acked {
+				c.Count("sub_refresh_applied_inside_position_check", 1)
+				c.Count("sub_refresh_applied_inside_position_check_then_"+res, 1)
+			}
+		}
 		side := "client_side"
 		if sp.ServerSide {
 			side = "server_side"
@@ -1268,6 +1371,11 @@ func runCase(c *kit.Case) {
 		ClientExpiredSubCloseDelay:   cfgDur(x.DS, sec(25)),
 		ClientPresenceUpdateInterval: cfgDur(x.I, sec(25)),
 		ClientChannelLimit:           1000,
+	}
+	x.byChannel = map[string]*cstate{}
+	if x.posCheck = r.Chance(1, 3); x.posCheck {
+		cfg.ClientChannelPositionCheckDelay = pickDur(r, sec(1), sec(2))
+		c.Count("cases_with_position_check_broker", 1)
 	}
 	if x.schedKind != "default" {
 		x.sch = newSched(x.schedKind == "harness-shared")
@@ -1347,7 +1455,7 @@ func TestC36(t *testing.T) {
 	kit.Main(t, kit.Spec{
 		ID:     "C36",
 		Bubble: true,
-		Rule: "one virtual-time bubble per case: a node with random ClientStaleCloseDelay {2,5,15(default),40}s, ClientExpiredCloseDelay / ClientExpiredSubCloseDelay {3,4,12,25(default)}s, ClientPresenceUpdateInterval {1,3,8,25(default)}s, default timers or a harness TimerScheduler (time.AfterFunc in the bubble; callbacks run directly or on one shared worker goroutine), and 3-6 connections (JSON/Protobuf), each with one scenario: stale (never connects / connects before or just after the delay / connect rejected), pong (ping interval 2-25 s and pong timeout 0.5-10 s from the transport or ConnectReply.PingPongConfig; pongs after 0, 1 ms, T/2, T-10 ms; stops at ping #k, optionally a late pong at T+10 ms, and on every other such connection an RPC command at T/2 after each unanswered ping: traffic that is not a pong), connection expiry (client-side refresh with/without OnRefresh, server-side OnRefresh handler extending n times then Expired, no handler; client refresh commands, Client.Refresh and Node.Refresh on a grid around the deadline: midway, -2 s, -500 ms, -10 ms, +10 ms, +<1 s, +3 s, and the exact instant the expire timer fires; ExpireAt 0 and Expired variants), subscription expiry (client-side subscription with client-side sub-refresh on the same grid, server-driven OnSubRefresh, no handler; server-side subscription from ConnectReply.Subscriptions or Client.Subscribe, with/without OnSubRefresh). One in 40 of the pong/subscription scenarios start with an expiring connection switched to no-expiration by a server-side refresh. " +
+		Rule: "one virtual-time bubble per case: a node with random ClientStaleCloseDelay {2,5,15(default),40}s, ClientExpiredCloseDelay / ClientExpiredSubCloseDelay {3,4,12,25(default)}s, ClientPresenceUpdateInterval {1,3,8,25(default)}s, default timers or a harness TimerScheduler (time.AfterFunc in the bubble; callbacks run directly or on one shared worker goroutine), and 3-6 connections (JSON/Protobuf), each with one scenario: stale (never connects / connects before or just after the delay / connect rejected), pong (ping interval 2-25 s and pong timeout 0.5-10 s from the transport or ConnectReply.PingPongConfig; pongs after 0, 1 ms, T/2, T-10 ms; stops at ping #k, optionally a late pong at T+10 ms, and on every other such connection an RPC command at T/2 after each unanswered ping: traffic that is not a pong), connection expiry (client-side refresh with/without OnRefresh, server-side OnRefresh handler extending n times then Expired, no handler; client refresh commands, Client.Refresh and Node.Refresh on a grid around the deadline: midway, -2 s, -500 ms, -10 ms, +10 ms, +<1 s, +3 s, and the exact instant the expire timer fires; ExpireAt 0 and Expired variants), subscription expiry (client-side subscription with client-side sub-refresh on the same grid, server-driven OnSubRefresh, no handler; server-side subscription from ConnectReply.Subscriptions or Client.Subscribe, with/without OnSubRefresh). In a third of the cases the node runs on a wrapper around the real MemoryBroker with ClientChannelPositionCheckDelay 1-2 s, and a quarter of their connections hold a positioned client-side subscription whose one sub_refresh command is run to completion inside the History call of the first periodic position check (launched on another goroutine, busy-waited, no sleeping); it is acknowledged in time, so the subscription must outlive the original deadline and end at the refreshed one. One in 40 of the pong/subscription scenarios start with an expiring connection switched to no-expiration by a server-side refresh. " +
 			"Oracle (timing model, per connection): the instant and code of transport.Close and of unsubscribe pushes are recorded on the virtual clock; stale => 3502 at create+delay (+-1 s) unless authenticated before; no pong => 3012 at (unanswered ping)+timeout (-2 ms/+1 s), never before the timeout of the last ping ran out, never when every ping was answered in time; expiry => walking the acknowledged refreshes, termination (3005 / unsubscribe push 2501 / 3006 for server-side subscriptions; a client-side sub-refresh answered Expired must end the subscription at once, by closing the connection with 3005 as documented or by the unsubscribe push, and that close is not judged as a connection expiry) must fall in [expire_at+grace-2 s, expire_at+grace+2 s (+1 s + one presence interval for subscriptions)], a refresh at or before the lower bound must be acknowledged and the connection/subscription must outlive it; refreshes inside the window may go either way (the oracle follows the acknowledgement). Signature = scheduler + sorted per-connection outcomes.",
 		Assumptions: []string{
 			"deadlines are compared with a 2 s margin (plus 1 s + one presence interval for tick-driven subscription expiry): an off-by-one-second error in the Unix-second arithmetic is not detected by design",
@@ -1365,6 +1473,8 @@ func TestC36(t *testing.T) {
 			"scheduler_default", "scheduler_harness-direct", "scheduler_harness-shared", "harness_scheduler_timers_fired",
 			"conn_expiry_mode_client", "conn_expiry_mode_server-handler", "conn_expiry_mode_server-nohandler", "conn_expiry_mode_client-nohandler",
 			"prelude_refresh_to_no_expiry",
+			"kind_sub-client-csr-positioned", "position_check_history_calls", "sub_refresh_run_inside_position_check",
+			"sub_refresh_applied_inside_position_check", "sub_refresh_applied_inside_position_check_then_expired",
 		},
 		Run: runCase,
 	})
